@@ -72,12 +72,13 @@ Fixpoint lookup (d : str) (l : list rfile) : option node :=
 
 Definition is_data (f : rfile) : bool := match rf_role f with RData => true | ROut => false end.
 
-(* [files] is the list before de-duplication; PrepareRuntimeDir uses the same iterator, so what lies at a
-   destination is the first source pushed for it. *)
-Definition test_act (c : tcmd) (files : list rfile) : bool :=
-  let dir := runtime_files files in
+(* [dir] is the prepared test directory: the de-duplicated runtime files (PrepareRuntimeDir uses the same
+   iterator as RuntimeHash, so what lies at a destination is the first source pushed for it).  $DATA names
+   the data destinations; generated data destinations lie under the package path and never collide with
+   the outputs, which lie at the root of the test directory. *)
+Definition run_cmd (c : tcmd) (dir : list rfile) : bool :=
   match c with
-  | TPassIf w => existsb (fun f => is_data f && match lookup (rf_dest f) dir with Some n => node_has w n | None => false end) files
+  | TPassIf w => existsb (fun f => is_data f && node_has w (rf_node f)) dir
   | TBinOk w => match filter (fun f => negb (is_data f)) dir with
                 | f :: _ => node_has w (rf_node f)
                 | [] => false
@@ -92,6 +93,9 @@ Definition test_act (c : tcmd) (files : list rfile) : bool :=
   | TFail => false
   end.
 
+(* [files] is the list before de-duplication *)
+Definition test_act (c : tcmd) (files : list rfile) : bool := run_cmd c (runtime_files files).
+
 (* ---- the runtime key ---- *)
 
 (* One test target as one invocation sees it. *)
@@ -102,6 +106,9 @@ Record tdef := {
   t_files : list rfile;  (* IterRuntimeFiles, before de-duplication: outputs first, then data in order *)
   t_bin : str            (* content of the test binary (the single output) *)
 }.
+
+(* the outcome of actually running the test of t: what a fresh `plz test` reports *)
+Definition outcome (t : tdef) : bool := test_act (t_cmd t) (t_files t).
 
 (* What RuntimeHash writes for one runtime file: per Gen.C11RuntimeHash.loop_writes. *)
 Definition file_stream (f : rfile) : list str :=
@@ -163,7 +170,7 @@ Definition test_step (cache_on : bool) (st : tstate) (t : tdef) : tstate * repor
     ({| st_bin := Some (t_bin t); st_local := Some k; st_cache := st_cache st |}, CachedPass)
   else
     (* RemoveTestOutputs, run, and on success cacheOutputFiles: results file + xattr, Cache.Store *)
-    if test_act (t_cmd t) (t_files t) then
+    if outcome t then
       ({| st_bin := Some (t_bin t); st_local := Some k;
           st_cache := if cache_on then k :: st_cache st else st_cache st |}, RanPass)
     else
@@ -190,6 +197,56 @@ Fixpoint nkeys (l : list key) : nat :=
   | k :: r => if mem_key k r then nkeys r else S (nkeys r)
   end.
 
+(* ---- the runtime inputs of a test and the known ways in which the key misses a change of them ---- *)
+
+Definition node_eqb (a b : node) : bool :=
+  match a, b with
+  | File c, File c' => str_eqb c c'
+  | Dir es, Dir es' => list_eqb (fun e e' => str_eqb (fst e) (fst e') && str_eqb (snd e) (snd e')) es es'
+  | _, _ => false
+  end.
+Definition role_eqb (a b : role) : bool :=
+  match a, b with ROut, ROut | RData, RData => true | _, _ => false end.
+Definition rfile_eqb (a b : rfile) : bool :=
+  role_eqb (rf_role a) (rf_role b) && str_eqb (rf_dest a) (rf_dest b) && node_eqb (rf_node a) (rf_node b).
+Definition tcmd_eqb (a b : tcmd) : bool :=
+  match a, b with
+  | TPassIf w, TPassIf w' | TBinOk w, TBinOk w' => str_eqb w w'
+  | TExists d u, TExists d' u' => str_eqb d d' && option_eqb str_eqb u u'
+  | TTrue, TTrue | TFail, TFail => true
+  | _, _ => false
+  end.
+
+(* same test command and same prepared test directory (names, kinds and contents) *)
+Definition same_inputs_b (a b : tdef) : bool :=
+  tcmd_eqb (t_cmd a) (t_cmd b) && list_eqb rfile_eqb (runtime_files (t_files a)) (runtime_files (t_files b)).
+
+Inductive defect :=
+| RuntimeFileNamesNotHashed     (* equal key, but a runtime file lies at another destination *)
+| DirEntryNamesNotHashed        (* equal key, same destinations, but a directory's entries differ (C09) *)
+| OtherKeyCollision.            (* equal key although command or contents differ (unframed rule stream, ...) *)
+
+Definition pair_defect (a b : tdef) : option defect :=
+  if key_eqb (runtime_key a) (runtime_key b) && negb (same_inputs_b a b) then
+    let da := runtime_files (t_files a) in
+    let db := runtime_files (t_files b) in
+    if negb (tcmd_eqb (t_cmd a) (t_cmd b)) then Some OtherKeyCollision
+    else if negb (list_eqb str_eqb (map rf_dest da) (map rf_dest db)) then Some RuntimeFileNamesNotHashed
+    else if list_eqb str_eqb (map (fun f => path_stream (rf_node f)) da) (map (fun f => path_stream (rf_node f)) db)
+         then Some DirEntryNamesNotHashed
+         else Some OtherKeyCollision
+  else None.
+
+Fixpoint first_some {A B} (f : A -> option B) (l : list A) : option B :=
+  match l with
+  | [] => None
+  | x :: r => match f x with Some d => Some d | None => first_some f r end
+  end.
+
+(* the first pair of tree states of the history on which the key is blind to a change of the inputs *)
+Definition defect_class (h : list step) : option defect :=
+  first_some (fun x => first_some (fun y => pair_defect (s_def x) (s_def y)) h) h.
+
 (* ---- correspondence cases ---- *)
 
 Record obs := {
@@ -209,7 +266,7 @@ Definition check (c : case) : bool :=
       && forallb (fun p =>
                     let '((st, rep), (x, o)) := p in
                     report_eqb rep (o_report o)
-                    && Bool.eqb (test_act (t_cmd (s_def x)) (t_files (s_def x))) (o_fresh o)
+                    && Bool.eqb (outcome (s_def x)) (o_fresh o)
                     && (negb cache_on || Nat.eqb (nkeys (st_cache st)) (o_nkeys o)))
                  (combine r h)
   end.
